@@ -540,6 +540,24 @@ def gen_directed_pairs():
                            ([b"a", b"dest"], [b"a", b"--", b"dest"])]),):
         for a, b in lines:
             out.append(mark_equal(respell_sx(c, [b"prog"] + a, [b"prog"] + b)))
+    # under infer_subcommands an EXACTLY typed alias is that subcommand, also when the alias is a prefix of its own
+    # subcommand's name and a sibling shares the prefix (`st` = `status` beside `stash`; seeded change seed3/C08-3 looked
+    # for the exact match only among the collected prefix candidates, one per subcommand)
+    def sc(name, aliases):
+        return {"name": name, "about": b"A:" + name, "aliases": aliases, "groups": [], "subs": [], "settings": [],
+                "args": [{"id": b"s", "short": "s", "long": b"short", "action": "settrue", "flags": set()},
+                         {"id": b"path", "flags": set()}]}
+    for with_pos in (False, True):
+        ci = {"name": b"p", "about": b"A:p", "groups": [], "aliases": [], "settings": ["infer_subcommands"],
+              "subs": [sc(b"status", [(b"st", True), (b"stat", False)]), sc(b"stash", [(b"sta", False)]),
+                       sc(b"commit", [(b"ci", True), (b"com", False)]), sc(b"compare", [])],
+              "args": [{"id": b"v", "short": "v", "action": "count", "flags": set()}]
+              + ([{"id": b"word", "flags": set()}] if with_pos else [])}
+        for a, b in (([b"st"], [b"status"]), ([b"st", b"-s"], [b"status", b"-s"]), ([b"stat", b"x"], [b"status", b"x"]),
+                     ([b"sta", b"-s"], [b"stash", b"-s"]), ([b"-v", b"st", b"--short", b"f"], [b"-v", b"status", b"--short", b"f"]),
+                     ([b"com"], [b"commit"]), ([b"ci", b"-s"], [b"commit", b"-s"]), ([b"statu", b"-s"], [b"status", b"-s"]),
+                     ([b"comp"], [b"compare"]), ([b"stas", b"x"], [b"stash", b"x"])):
+            out.append(mark_equal(respell_sx(ci, [b"prog"] + a, [b"prog"] + b)))
     return out
 
 
